@@ -147,6 +147,8 @@ type Model struct {
 	Ended   int // sessions ended
 	Reused  int // session ids reused
 	everSID map[string]bool
+	// the last few ended sessions (for attributing cross-session leaks)
+	EndedStates []*Session
 }
 
 func New() *Model {
@@ -1014,7 +1016,15 @@ func (m *Model) stepJoin(c *Conn, r *Req, answers, rest []*d.Event, closed bool,
 			continue
 		}
 		if !EqualNorm(e.M, want, false) {
-			o.viol([]string{"C01", "C06", "C12", "C16", "C11", "C05"}, "join/handed-state", "joiner %d of %s was handed %s\n   model: %s", c.ID, target.SID, Norm(e.M, false), Norm(want, false))
+			props := []string{"C01", "C06", "C12", "C16", "C11", "C05"}
+			note := ""
+			if leak := m.foreignElements(e, want, target, c.Mods); leak != "" {
+				// something handed to the joiner is not in this session's state
+				// but is in another session's: state crossed a session boundary
+				props = append(props, "C03")
+				note = "\n   cross-session: " + leak
+			}
+			o.viol(props, "join/handed-state", "joiner %d of %s was handed %s\n   model: %s%s", c.ID, target.SID, Norm(e.M, false), Norm(want, false), note)
 		}
 	}
 	for t := range wantState {
@@ -1069,6 +1079,10 @@ func (m *Model) depart(c *Conn, o *Outcome) {
 	if len(s.Members) == 0 {
 		delete(m.Sessions, s.SID)
 		m.Ended++
+		m.EndedStates = append(m.EndedStates, s)
+		if len(m.EndedStates) > 8 {
+			m.EndedStates = m.EndedStates[1:]
+		}
 	}
 	c.Sess, c.PID = nil, 0
 }
@@ -1109,3 +1123,64 @@ func OdalPB(s *State) *odalpb.State {
 }
 
 func bytesEq(a, b []byte) bool { return bytes.Equal(a, b) }
+
+// elementKeys renders the elements of the repeated message fields of a state
+// message (participants excluded: their ids coincide across sessions by design).
+func elementKeys(m proto.Message) map[string]bool {
+	out := map[string]bool{}
+	r := m.ProtoReflect()
+	fields := r.Descriptor().Fields()
+	for i := 0; i < fields.Len(); i++ {
+		f := fields.Get(i)
+		if !f.IsList() || f.Message() == nil || f.Name() == "participants" {
+			continue
+		}
+		l := r.Get(f).List()
+		for j := 0; j < l.Len(); j++ {
+			b, _ := proto.MarshalOptions{Deterministic: true}.Marshal(l.Get(j).Message().Interface())
+			out[string(f.Name())+":"+string(b)] = true
+		}
+	}
+	return out
+}
+
+// foreignElements reports elements handed to a joiner of target that the
+// model does not hold for target but does hold for another (live or recently
+// ended) session.
+func (m *Model) foreignElements(e *d.Event, want proto.Message, target *Session, mods string) string {
+	handed := elementKeys(e.M)
+	for k := range elementKeys(want) {
+		delete(handed, k)
+	}
+	if len(handed) == 0 {
+		return ""
+	}
+	others := append([]*Session(nil), m.EndedStates...)
+	for _, s := range m.Sessions {
+		if s != target {
+			others = append(others, s)
+		}
+	}
+	for _, s := range others {
+		if s == target {
+			continue
+		}
+		var om proto.Message
+		switch e.Type {
+		case d.TSessionState:
+			om = StatePB(s.State)
+		case d.TVikjaState:
+			om = VikjaPB(s.State)
+		case d.TOdalState:
+			om = OdalPB(s.State)
+		default:
+			return ""
+		}
+		for k := range elementKeys(om) {
+			if handed[k] {
+				return fmt.Sprintf("an element of the handed %s is not part of session %s but of session %s (uuid %s)", d.TypeName(e.Type), target.SID, s.SID, s.UUID)
+			}
+		}
+	}
+	return ""
+}
